@@ -53,6 +53,30 @@ pub fn json_as<K: EnrKey>(s: &str) -> DecOut {
     finish(r, t0)
 }
 
+/// The other ways a JSON document reaches `Deserialize`: an owned `Value`, a reader, and the same
+/// string with one character written as a \u escape (which forces an owned string).
+pub fn json_variants_as<K: EnrKey>(doc: &str) -> Vec<(&'static str, DecOut)> {
+    let mut out = Vec::new();
+    let t0 = thread_cpu_ns();
+    let r = guard(|| {
+        let v: serde_json::Value = serde_json::from_str(doc).map_err(|e| e.to_string())?;
+        serde_json::from_value::<Enr<K>>(v).map(|e| (e, 0)).map_err(|e| e.to_string())
+    });
+    out.push(("json-from_value", finish(r, t0)));
+    let r = guard(|| serde_json::from_reader::<_, Enr<K>>(doc.as_bytes()).map(|e| (e, 0)).map_err(|e| e.to_string()));
+    out.push(("json-from_reader", finish(r, t0)));
+    if doc.len() > 3 && doc.starts_with('"') {
+        // escape the first character of the string body
+        let first = doc[1..].chars().next().unwrap();
+        let escaped = format!("\"\\u{:04x}{}", first as u32, &doc[1 + first.len_utf8()..]);
+        if (first as u32) < 0x10000 {
+            let r = guard(|| serde_json::from_str::<Enr<K>>(&escaped).map(|e| (e, 0)).map_err(|e| e.to_string()));
+            out.push(("json-escaped", finish(r, t0)));
+        }
+    }
+    out
+}
+
 /// `Vec<Enr<K>>::decode` of an RLP list of records.
 pub fn list_as<K: EnrKey>(buf: &[u8]) -> (Result<Vec<Obs>, String>, usize, Option<String>) {
     let r = guard(|| {
@@ -123,6 +147,9 @@ pub fn parse_kt(kt: KT, s: &str) -> DecOut {
 }
 pub fn json_kt(kt: KT, s: &str) -> DecOut {
     dispatch!(kt, json_as, s)
+}
+pub fn json_variants_kt(kt: KT, s: &str) -> Vec<(&'static str, DecOut)> {
+    dispatch!(kt, json_variants_as, s)
 }
 pub fn list_kt(kt: KT, buf: &[u8]) -> (Result<Vec<Obs>, String>, usize, Option<String>) {
     dispatch!(kt, list_as, buf)
